@@ -46,6 +46,22 @@ def concretise(case, pres):
     tot = n + (pad['n'] if pad else 0)
     core.reset_objects()
     vals = [core.dec_value(e) for e in pres['smap'][:tot]]
+    if pres.get('fresh'):
+        # every occurrence of a state is an equal but distinct object (names
+        # computed per use, as with (q, s) pairs or 's%d' % i), except for
+        # identity-compared states
+        shared = vals
+
+        class _Fresh(object):
+            def __getitem__(self, i):
+                return core.fresh_copy(shared[i])
+
+            def __iter__(self):
+                return (core.fresh_copy(v) for v in shared)
+
+            def __len__(self):
+                return len(shared)
+        vals = _Fresh()
     edges = [list(e) for e in K['E']] + (pad['E'] if pad else [])
     labs = [list(l) for l in K['lab']] + (pad['lab'] if pad else [])
     amap = pres.get('amap') or {}
@@ -208,6 +224,8 @@ def gen_presentation(rng, case, cfg):
             'S0': rng.choice(['list', 'set', 'tuple']),
             'lab': rng.choice(['list', 'tuple', 'set', 'frozenset',
                                'iter'])}
+    if 'bijection' in kinds and rng.random() < 0.4:
+        pres['fresh'] = True
     if 'S0' in kinds and rng.random() < 0.3:
         pres['S0'] = sorted(rng.sample(range(tot), rng.randint(0, tot)))
     if 'atoms' in kinds and rng.random() < 0.6:
